@@ -181,7 +181,7 @@ func (st *c06State) check(cs *c06Case) {
 	sx1, sy1 := m.UnX(penX), m.UnY(penY)
 	sx2, sy2 := m.UnX(endX), m.UnY(endY)
 	arc := ref.ArcCenter(sx1, sy1, sx2, sy2, float64(rx), float64(ry), 2*math.Pi*float64(rot), cs.LA, cs.SW)
-	if arc.Degenerate || arc.NearHalfTurn || math.Abs(arc.Lambda-1) < 1e-5 {
+	if arc.Degenerate || (arc.NearHalfTurn && !arc.Scaled) || math.Abs(arc.Lambda-1) < 1e-5 {
 		// chord equal to a diameter (within float32 rounding of the pen): the centre is
 		// ill-conditioned (sqrt of a cancelling difference) and the flags do not determine the arc
 		w.Skip()
